@@ -11,7 +11,7 @@
    correspondence; hard restrictions after a solve are decided by the oracle on the implementation. *)
 From Coq Require Import ZArith QArith Bool List Lia Ascii String.
 From DC Require Import Model.Base Model.Loc Model.Bio Model.Pattern Model.MSpace Model.Specs Model.Solver Model.Circular
-                       Proofs.SpecsDefs Proofs.PatternProofs Proofs.BioB Proofs.SpecsEval Proofs.CircularProofs.
+                       Proofs.SpecsDefs Proofs.PatternProofs Proofs.BioB Proofs.SpecsEval Proofs.CircularProofs Proofs.CircularAC.
 Import ListNotations.
 Open Scope Z_scope.
 
@@ -55,6 +55,31 @@ Theorem C13_replace_circular_spec : forall s new, zlen new = 3 * zlen s ->
          (a = x -> b = x -> c <> x -> nth_error s' (Z.to_nat i) = Some c)).
 Proof. exact replace_circular_spec. Qed.
 Print Assumptions C13_replace_circular_spec.
+
+(* (iv) AvoidChanges (location, indices, edit allowance) keeps its meaning in a circular problem: the
+   circular evaluation passes exactly when the specification passes on the sequence itself, and what its
+   score counts is the allowance minus the number of edited positions (fix F23; before it, only the first
+   copy carried the indices and a whole-sequence target was re-read from the current sequence). *)
+Theorem C13_avoid_changes_keeps_its_meaning : forall l idx tg me s,
+  0 <= lstart l -> lstart l <= lend l -> lend l <= zlen s -> indices_inside idx (zlen s) ->
+  circular_all_pass [SAvoidChanges l idx tg me] s
+  = match eval_avoid_changes l idx tg me s with Some e => passes e | None => false end.
+Proof. exact avoid_changes_circular_iff_linear. Qed.
+Print Assumptions C13_avoid_changes_keeps_its_meaning.
+
+Theorem C13_avoid_changes_score_counts_edits : forall l tg me s e,
+  eval_avoid_changes l None tg me s = Some e ->
+  score e = zq (me - zlen (filter (fun p => negb (nuc_eqb (fst p) (snd p))) (combine (extract l s) tg))).
+Proof. exact avoid_changes_score_counts_edits. Qed.
+Print Assumptions C13_avoid_changes_score_counts_edits.
+
+(* Non-vacuity: two edits under an allowance of one are seen, whole-sequence location and indices at the origin *)
+Example C13_ex_allowance :
+  let s0 := sq "CGATGATAATTA"%string in let s1 := sq "CCATGATAATCA"%string in
+  circular_all_pass [SAvoidChanges (mkLoc 0 12 0) None s0 1] s1 = false
+  /\ circular_all_pass [SAvoidChanges (mkLoc 0 12 0) None s0 2] s1 = true
+  /\ circular_all_pass [SAvoidChanges (mkLoc 1 11 1) (Some [1; 10]) (sq "GT"%string) 0] s1 = false.
+Proof. vm_compute. repeat split; reflexivity. Qed.
 
 (* Non-vacuity: GGC across the origin is seen by the circular evaluation and missed by the linear one *)
 Example C13_ex_junction :
